@@ -251,4 +251,16 @@ def x86(ex, b, rty, args):
         return r
     if b == 'x86.sse41.ptestz':
         x, y = args[0], args[1]; return z3.If(z3.And(*[(p & q) == 0 for p, q in zip(x, y)]), bv(1, 32), bv(0, 32))
+    if b in ('x86.sse2.packssdw.128', 'x86.sse2.packsswb.128', 'x86.sse2.packuswb.128', 'x86.sse41.packusdw'):
+        # saturating narrowing of the lanes of args[0] followed by those of args[1] (Intel SDM PACKSSDW / PACKSSWB / PACKUSWB / PACKUSDW)
+        out = []
+        for x in list(args[0]) + list(args[1]):
+            n = x.size(); h = n // 2
+            if 'packss' in b:
+                lo_, hi_ = -(1 << (h - 1)), (1 << (h - 1)) - 1
+                out.append(z3.If(x < lo_, bv(lo_ & ((1 << h) - 1), h), z3.If(x > hi_, bv(hi_, h), z3.Extract(h - 1, 0, x))))
+            else:
+                hi_ = (1 << h) - 1
+                out.append(z3.If(x < 0, bv(0, h), z3.If(x > hi_, bv(hi_, h), z3.Extract(h - 1, 0, x))))
+        return out
     raise Unsupported('x86 intrinsic ' + b)
